@@ -656,7 +656,7 @@ class PageLayout(object):
             self.regions.append(region_layout)
 
     def sort_regions_by_reading_order(self):
-        self.regions = sorted(self.regions, key=lambda k: self.reading_order[k] if k in self.reading_order else float("inf"))
+        self.regions = sorted(self.regions, key=lambda k: self.reading_order[k.id] if k.id in self.reading_order else float("inf"))
 
     def reading_order_to_page_xml(self, page_element: ET.SubElement):
         reading_order_element = ET.SubElement(page_element, "ReadingOrder")
